@@ -199,6 +199,8 @@ func safeDoc(env interface{}) (d *docgen.Context, pan interface{}) {
 			pan = r
 		}
 	}()
+	runner.LibEnter()
+	defer runner.LibLeave()
 	return docgen.CreateDoc(env), nil
 }
 
@@ -324,6 +326,32 @@ func (HEnv) ValM(x int) int       { return x + 1 }
 func (*HEnv) PtrM() string        { return "ptr" }
 func (HEnv) unexpM() int          { return 0 }
 
+// a method at depth 0 shadows a function-valued field of the same name that
+// an embedded struct promotes from depth 1 (and the other way round for Tag)
+type HFuncs struct {
+	Label func() int
+	Cnt   int
+}
+type HTagged struct{ HFuncs }
+
+func (HTagged) Tag() string { return "t" }
+
+type HShadow struct {
+	HFuncs
+	HTagged2
+	Tag   func() int // field at depth 0 shadows the promoted method Tag
+	Inner HShadowInner
+}
+type HTagged2 struct{ K int }
+
+func (HTagged2) Tag() string  { return "deep" }
+func (HShadow) Label() string { return "method" }
+func (HShadow) Other() string { return "o" }
+
+type HShadowInner struct{ HFuncs }
+
+func (HShadowInner) Label() string { return "inner-method" }
+
 type Vars map[string]interface{}
 type VarsM map[string]interface{}
 
@@ -443,6 +471,8 @@ func c16Handwritten(c *runner.Ctx, idx uint64) {
 		goOK int
 	}
 	he := HEnv{A: 1, Fn: func(i int) int { return i * 2 }, Obj: &HEnvObj{N: 5}}
+	fnI := func() int { return 3 }
+	hs := HShadow{HFuncs: HFuncs{Label: fnI, Cnt: 1}, Tag: func() int { return 9 }, Inner: HShadowInner{HFuncs{Label: fnI, Cnt: 2}}}
 	cases := []struct {
 		desc   string
 		env    interface{}
@@ -454,6 +484,11 @@ func c16Handwritten(c *runner.Ctx, idx uint64) {
 			[]string{"A", "IV", "HInner", "Fn", "Obj", "ValM", "InnerM", "PtrM", "InnerPM", "unexpM"}},
 		{"*HEnv (pointer)", &he, []probe{{"PtrM", -1}, {"ValM", -1}, {"A", 1}, {"IV", 1}, {"Fn(2)", 1}, {"ValM(1)", 1}, {"InnerM()", 1}, {"PtrM()", 1}, {"InnerPM()", 1}, {"unexpM()", 0}, {"Obj.Set(3)", 1}, {"Obj.Get()", 1}},
 			[]string{"A", "IV", "HInner", "Fn", "Obj", "ValM", "InnerM", "PtrM", "InnerPM", "unexpM"}},
+		{"HShadow (method over promoted func field)", hs, []probe{{"Label()", 1}, {"Label() + \"!\"", 1}, {"Inner.Label()", 1}, {"Inner.Label() + \"!\"", 1}, {"HFuncs.Label()", 1}, {"HFuncs.Label() + 1", 1},
+			{"Inner.HFuncs.Label() + 1", 1}, {"Tag()", 1}, {"Tag() + 1", 1}, {"HTagged2.Tag() + \"!\"", 1}, {"Cnt + 1", 1}, {"Other()", 1}, {"K", 1}},
+			[]string{"Label", "Tag", "Cnt", "Other", "K", "Inner", "HFuncs", "HTagged2"}},
+		{"*HShadow (pointer)", &hs, []probe{{"Label()", 1}, {"Other()", 1}, {"Tag()", 1}, {"Label() + \"!\"", 1}, {"Inner.Label() + \"!\"", 1}, {"HFuncs.Label() + 1", 1}, {"Tag() + 1", 1}, {"HTagged2.Tag() + \"!\"", 1}},
+			[]string{"Label", "Tag", "Cnt", "Other", "K", "Inner", "HFuncs", "HTagged2"}},
 		{"map[string]interface{}", map[string]interface{}{"a": 1, "s": "x", "f": func(i int) int { return i }, "obj": &HEnvObj{N: 2}, "n": nil},
 			[]probe{{"a", 1}, {"s", 1}, {"f(1)", 1}, {"obj.N", 1}, {"obj.Get()", 1}, {"missing", 0}, {"A", 0}, {"n", -1}}, []string{"a", "s", "f", "obj", "n"}},
 		{"Vars (named map[string]interface{})", Vars{"cnt": 3, "label": "x"}, []probe{{"cnt", 1}, {"label", 1}, {"cnt + 1", 1}, {"missing", 0}}, []string{"cnt", "label"}},
